@@ -157,8 +157,8 @@ def step (st : St) (line : String) : St × String :=
   | ["rfork", _, _] => ({ st with n2 := Machine.forkOf st.n1 }, "ok")
   | "rpollute" :: _ :: what => ({ st with n1 := repMachine.discard st.n1 (joinWith " " what) }, "ok")
   | ["rblock", id, kind, d1, _] =>
-    let r1 := repMachine.exec st.n1 (id ++ ":" ++ kind)
-    let r2 := repMachine.exec st.n2 (id ++ ":" ++ kind)
+    let r1 := repMachine.execVia ["direct"] st.n1 (id ++ ":" ++ kind)
+    let r2 := repMachine.execVia ["frames", "abci-local-client"] st.n2 (id ++ ":" ++ kind)
     ({ st with n1 := r1.1, n2 := r2.1 }, if r1.2 = r2.2 then "same " ++ d1 else "model-diverged")
   | ["end", _, na, nb] =>
     match na.toNat?, nb.toNat? with
